@@ -1057,7 +1057,7 @@ class NetlistMixin(object):
         This is experimental!"""
 
         new = self._new()
-        self.kind = 'dc'
+        new.kind = 'dc'
 
         for cpt in self._elements.values():
             net = cpt._r_model()
